@@ -4,6 +4,7 @@ use crate::node::Leaf;
 use crate::{ItemId, Node, NodeCodec, Result};
 
 pub struct ItemIter<'t, D: Distance> {
+    pub(crate) dimensions: usize,
     pub(crate) inner: heed::RoPrefix<'t, KeyCodec, NodeCodec<D>>,
 }
 
@@ -15,7 +16,10 @@ impl<D: Distance> Iterator for ItemIter<'_, D> {
         match self.inner.next() {
             Some(Ok((key, node))) => match node {
                 Node::Leaf(Leaf { header: _, vector }) => {
-                    Some(Ok((key.node.item, vector.to_vec())))
+                    // quantized vectors are padded up to a multiple of a word
+                    let mut vector = vector.to_vec();
+                    vector.truncate(self.dimensions);
+                    Some(Ok((key.node.item, vector)))
                 }
                 Node::Descendants(_) | Node::SplitPlaneNormal(_) => None,
             },
